@@ -160,6 +160,9 @@ func (e *Engine) verifyFunction(fn *ssa.Function, fc *FuncContract, ifaceNames [
 				continue
 			}
 			xenv := vc.specEnv(act, ex.st, entry, "ensures", nil)
+			if ex.site != nil && ex.site.Block() != nil && ex.site.Parent() == fn {
+				xenv.point, xenv.atEnd = ex.site.Block(), true
+			}
 			for k, v := range env.vars {
 				xenv.vars[k] = v
 			}
